@@ -1,24 +1,25 @@
 #!/bin/bash
-# usage: tools/seedmatrix.sh <outdir> [seed dirs...]
+# usage: [SUFFIX=_x] [IDS="C01 C02"|IDS=own] tools/seedmatrix.sh <outdir> [seed dirs...]
 # Runs every registered quick check against every seeded change, on scratch copies of /repo and /verif (so
 # neither is touched): the copy of /verif has its harness pointed at the copy of /repo.  The copies are
 # removed at the end.  Writes <outdir>/<seed>.txt with one "<id> rc=<n> <violation line>" line per check.
 set -u
 out=$1; shift
 seeds=${@:-$(ls -d /verif/seeded/*/ | xargs -n1 basename)}
-R=/tmp/matrix_repo; V=/tmp/matrix_verif
+R=/tmp/matrix_repo${SUFFIX:-}; V=/tmp/matrix_verif${SUFFIX:-}
 rm -rf $R $V; mkdir -p "$out"
 git -C /repo worktree add -f --detach $R HEAD >/dev/null 2>&1 || exit 2
 cp /repo/Cargo.lock $R/ 2>/dev/null
 rsync -a --exclude .git --exclude replays /verif/ $V/
 sed -i "s|path = \"/repo|path = \"$R|g" $V/harness/Cargo.toml
 sed -i "s|^REPO = \"/repo\"|REPO = \"$R\"|" $V/vlib.py
-ids=$(python3 -c "import json; print(' '.join(c['property_id'] for c in json.load(open('/verif/MANIFEST.json'))['checks']))")
+ids=${IDS:-$(python3 -c "import json; print(' '.join(c['property_id'] for c in json.load(open('/verif/MANIFEST.json'))['checks']))")}
 cd $V
 for s in $seeds; do
   git -C $R checkout -q -- . ; git -C $R apply /verif/seeded/$s/patch.diff || { echo "$s: patch does not apply" > $out/$s.txt; continue; }
   : > $out/$s.txt
-  for id in $ids; do
+  runids=$ids; [ "$ids" = "own" ] && runids=${s%-*}
+  for id in $runids; do
     log=$(mktemp)
     timeout 1800 ./verify check $id --tier quick > "$log" 2>&1; rc=$?
     echo "$id rc=$rc $(grep -m1 '^VIOLATION' "$log")" >> $out/$s.txt
